@@ -33,6 +33,15 @@ def main():
         mod.run(ctx)
         rc = ctx.finish()
     except facts.AnalysisBroken as e:
+        if ctx.reports:
+            # some rule could not be carried out, but others already found violations: those stand
+            ctx.broken_rules.append(str(e))
+            try:
+                rc = ctx.finish()
+                if rc == 1:
+                    return 1
+            except facts.AnalysisBroken:
+                pass
         print('ANALYSIS-BROKEN property=%s: %s' % (prop, e))
         try:
             ctx.write_evidence(0, [], broken=str(e))
